@@ -66,6 +66,7 @@ type Unit struct {
 	inlined  map[string]bool
 	goneLoops map[int]bool // loops the contract names that the function no longer has
 	notes    []string
+	droppedInv map[[2]int]bool // (loop, invariant index) dropped because it names a vanished variable
 	havocked map[string]bool // callees havocked without contract
 	bvMode   bool
 	specDefs map[string]string
